@@ -907,6 +907,9 @@ func main() {
 		scenarioLateNext(rng)
 		scenarioOptions()
 		scenarioDefaults()
+		scenarioDeadlines(120*time.Millisecond, 100*time.Millisecond)
+		scenarioDeadlines(400*time.Millisecond, 0)
+		scenarioDeadlines(0, 260*time.Millisecond)
 	}
 	if only == "d8" {
 		scenarioD8(rng)
